@@ -5,6 +5,7 @@ RULE = ("MSS boundary values + uniform, both IP versions, MTU 41..65535, base op
         "several other options) both as sniffed (dissected from bytes, explicit fields) and as constructed Scapy packets, all flag "
         "types incl. invalid and fragments, MTU databases with duplicates and misses; non-trivial = fingerprint accepted the packet; "
         "the impersonated packet is re-fingerprinted and all non-option fields compared")
+GEN_TIE = True     # gates, from_mss and mtu_signatures_match are also TRANSLATED from /repo's source on every run and proved equal to the model
 ASSUMPTIONS = ["the (fragment, type, version, MSS) given to the fingerprint model are those the implementation extracted (C03's tie)"]
 EXHAUSTIVE = {"MSS 1..2000 x both versions through fingerprint_mtu (thorough: 1..65535)": True}
 MSS_VALUES = [1, 2, 99, 100, 536, 1220, 1360, 1400, 1440, 1452, 1460, 8960, 65494, 65495, 65496, 65534, 65535]
